@@ -826,8 +826,14 @@ func (c *EvalCtx) call(v *ECall) SV {
 	case "visited":
 		// visited(k): k was already produced by the (single) map range loop of this function
 		var names []string
+		pre := "visited."
+		if c.locals != nil {
+			pre += c.locals.fn.String() + "." // the map range of the function whose loop invariant this is
+		} else if c.fn != nil {
+			pre += c.fn.String() + "."
+		}
 		for g := range c.st.ghost {
-			if strings.HasPrefix(g, "visited.") {
+			if strings.HasPrefix(g, pre) {
 				names = append(names, g)
 			}
 		}
@@ -862,8 +868,17 @@ func (c *EvalCtx) call(v *ECall) SV {
 		p := c.locals.parent
 		n := *c
 		n.locals = p
-		n.env = p.env
+		n.env = make(map[string]SV, len(p.env)+len(c.bound))
+		for k, v := range p.env {
+			n.env[k] = v
+		}
+		for k := range c.bound { // quantified variables stay visible
+			if v, ok := c.env[k]; ok {
+				n.env[k] = v
+			}
+		}
 		n.lets = nil
+		n.bound = c.bound
 		if p.pre != nil {
 			n.old = p.pre // old(...) inside outer(...) is the caller's pre-state
 		}
